@@ -218,6 +218,8 @@ def _worker_batch(prop_name, seed, indices, tier, options):
         spec, result = run_one(prop, seed, index, tier, options)
         merge_stats(stats, result['stats'])
         bump(stats, 'runs')
+        if spec.get('build'):
+            bump(stats, 'runs_on_build:' + spec['build'])
         dt = time.time() - t_run
         stats['counters']['slowest_run_s'] = max(stats['counters'].get('slowest_run_s', 0.0), dt)
         if dt > 10:
